@@ -166,7 +166,7 @@ func init() {
 		specRow{rule: P, pair: "pbkvs", unit: "AReplica", label: "handleBackup", key: "asserts-versions-grow", effect: "assert", expr: "req.body.versionNumber >= lastPutBody.versionNumber", cond: put, why: "replicated Puts arrive with non-decreasing versions"},
 		specRow{rule: P, pair: "pbkvs", unit: "AReplica", label: "rcvReplicaRespLoop", key: "asserts-ack-provenance", effect: "assert", cond: "Cardinality(replicaSet) > 0",
 			expr: "(repResp__new.from \\in replicaSet \\/ fd[repResp__new.from]) /\\ repResp__new.to = self /\\ repResp__new.body = ACK_MSG_BODY /\\ repResp__new.srcTyp = BACKUP_SRC /\\ repResp__new.typ = PUT_RESP /\\ repResp__new.id = req.id",
-			why: "what the primary counts as an acknowledgement is an acknowledgement of this Put from a backup it waits for"},
+			why:  "what the primary counts as an acknowledgement is an acknowledgement of this Put from a backup it waits for"},
 	)
 }
 
@@ -180,7 +180,9 @@ func init() {
 	const cli = "m.mtype # RequestVoteRequest /\\ m.mtype # RequestVoteResponse /\\ m.mtype # AppendEntriesRequest /\\ m.mtype # AppendEntriesResponse /\\ (m.mtype = ClientPutRequest \\/ m.mtype = ClientGetRequest)"
 	const anyRaftMsg = "(m.mtype = RequestVoteRequest \\/ m.mtype = RequestVoteResponse \\/ m.mtype = AppendEntriesRequest \\/ m.mtype = AppendEntriesResponse)"
 	const rejectAE = "(m.mterm < currentTerm__new[i] \\/ (m.mterm = currentTerm__new[i] /\\ state__new[i] = Follower /\\ ~logOK))"
-	op := func(name, body, why string) specRow { return specRow{rule: R, pair: "raftkvs", op: name, body: body, why: why} }
+	op := func(name, body, why string) specRow {
+		return specRow{rule: R, pair: "raftkvs", op: name, body: body, why: why}
+	}
 	r := func(unit, label, key, effect, cond, why string) specRow {
 		return specRow{rule: R, pair: "raftkvs", unit: unit, label: label, key: key, effect: effect, cond: cond, why: why}
 	}
@@ -289,7 +291,9 @@ func init() {
 	const app = "m.mtype # RequestVoteRequest /\\ m.mtype # RequestVoteResponse /\\ m.mtype # AppendEntriesRequest /\\ m.mtype = AppendEntriesResponse"
 	const cli = "m.mtype # RequestVoteRequest /\\ m.mtype # RequestVoteResponse /\\ m.mtype # AppendEntriesRequest /\\ m.mtype # AppendEntriesResponse /\\ (m.mtype = ClientPutRequest \\/ m.mtype = ClientGetRequest)"
 	const rejectAE = "(m.mterm < currentTerm__new[i] \\/ (m.mterm = currentTerm__new[i] /\\ state__new[i] = Follower /\\ ~logOK))"
-	op := func(name, body, why string) specRow { return specRow{rule: R, pair: "raftkvs", op: name, body: body, why: why} }
+	op := func(name, body, why string) specRow {
+		return specRow{rule: R, pair: "raftkvs", op: name, body: body, why: why}
+	}
 	r := func(unit, label, key, effect, cond, why string) specRow {
 		return specRow{rule: R, pair: "raftkvs", unit: unit, label: label, key: key, effect: effect, cond: cond, why: why}
 	}
@@ -326,7 +330,9 @@ func init() {
 	px := func(unit, label, key, effect, expr, cond, why string) specRow {
 		return specRow{rule: P, pair: "pbkvs", unit: unit, label: label, key: key, effect: effect, expr: expr, cond: cond, why: why}
 	}
-	pop := func(name, body, why string) specRow { return specRow{rule: P, pair: "pbkvs", op: name, body: body, why: why} }
+	pop := func(name, body, why string) specRow {
+		return specRow{rule: P, pair: "pbkvs", op: name, body: body, why: why}
+	}
 	specTable(
 		pop("REPLICA_SET", "1..NUM_REPLICAS", "the replicas are 1..NUM_REPLICAS"),
 		pop("CLIENT_SET", "(NUM_REPLICAS+1)..(NUM_REPLICAS+NUM_CLIENTS)", "client ids follow the replicas'"),
@@ -352,7 +358,9 @@ func init() {
 func init() {
 	// C16: rows added from the survivors of the specification sweep
 	const S = "SYS-DECISION"
-	op := func(pair, name, body, why string) specRow { return specRow{rule: S, pair: pair, op: name, body: body, why: why} }
+	op := func(pair, name, body, why string) specRow {
+		return specRow{rule: S, pair: pair, op: name, body: body, why: why}
+	}
 	r := func(pair, unit, label, key, effect, cond, why string) specRow {
 		return specRow{rule: S, pair: pair, unit: unit, label: label, key: key, effect: effect, cond: cond, why: why}
 	}
@@ -391,5 +399,48 @@ func init() {
 		r("shopcart", "ANode", "nodeLoop", "add-is-an-add", "crdt[self] := [cmd |-> AddCmd, elem |-> req.elem]", "req.cmd = AddCmd", "an add request adds"),
 		r("shopcart", "ANode", "nodeLoop", "remove-is-a-remove", "crdt[self] := [cmd |-> RemoveCmd, elem |-> req.elem]", "req.cmd # AddCmd /\\ req.cmd = RemoveCmd", "a remove request removes"),
 		r("shopcart", "ANode", "rcvResp", "answers-with-own-replica", "out := crdt[self]", "", "a node answers with what its own replica reads"),
+	)
+}
+
+func init() {
+	// ---------------------------------------------------------------- replicated key-value store (C16)
+	const S = "SYS-DECISION"
+	r := func(unit, label, key, effect, cond, why string) specRow {
+		return specRow{rule: S, pair: "replicatedkv", unit: unit, label: label, key: key, effect: effect, cond: cond, why: why}
+	}
+	x := func(unit, label, key, effect, expr, cond, why string) specRow {
+		return specRow{rule: S, pair: "replicatedkv", unit: unit, label: label, key: key, effect: effect, expr: expr, cond: cond, why: why}
+	}
+	specTable(
+		r("AReplica", "clientDisconnected", "disconnect-leaves-live-set", "liveClients := liveClients \\ {msg.client}", "msg.op = DISCONNECT_MSG", "a disconnected client no longer holds requests back"),
+		r("AReplica", "replicaGetRequest", "get-advances-client-clock", "currentClocks[msg.client] := msg.timestamp", "msg.op = GET_MSG", "a request carries its client's clock"),
+		r("AReplica", "replicaGetRequest", "get-is-queued-per-client", "pendingRequests[msg.client] := Append(pendingRequests[msg.client], msg)", "msg.op = GET_MSG", "requests are queued per client in arrival order"),
+		x("AReplica", "replicaGetRequest", "get-from-live-client", "assert", "msg.client \\in liveClients", "msg.op = GET_MSG", "a Get comes from a client that has not disconnected"),
+		r("AReplica", "replicaPutRequest", "put-advances-client-clock", "currentClocks[msg.client] := msg.timestamp", "msg.op = PUT_MSG", "a request carries its client's clock"),
+		r("AReplica", "replicaPutRequest", "put-is-queued-per-client", "pendingRequests[msg.client] := Append(pendingRequests[msg.client], msg)", "msg.op = PUT_MSG", "requests are queued per client in arrival order"),
+		r("AReplica", "replicaNullRequest", "null-advances-client-clock", "currentClocks[msg.client] := msg.timestamp", "msg.op = NULL_MSG", "a clock update only advances the client's clock"),
+		r("AReplica", "findStableRequestsLoop", "stability-over-all-live-clients", "clientsIter := liveClients", "continue", "the minimum clock is taken over every live client, not only over those with pending requests: a client with nothing pending can still send a lower timestamp"),
+		r("AReplica", "findStableRequestsLoop", "candidates-are-live-clients-with-pending-requests", "pendingClients := {c \\in liveClients : Len(pendingRequests[c]) > 0}", "continue", "only live clients with a pending request are candidates"),
+		r("AReplica", "findStableRequestsLoop", "min-clock-restarts", "minClock := 0", "continue", "the minimum is recomputed in every round"),
+		r("AReplica", "findMinClock", "takes-the-smaller-clock", "minClock := currentClocks[client]", "i < Cardinality(clientsIter) /\\ (minClock = 0 \\/ currentClocks[client] < minClock)", "the minimum is lowered exactly by a strictly smaller clock"),
+		r("AReplica", "findMinClock", "visits-every-live-client", "clientsIter := clientsIter \\ {client}", "i < Cardinality(clientsIter)", "every live client is looked at once"),
+		r("AReplica", "findMinClock", "lowest-pending-starts-above-min", "lowestPending := minClock + 1", "~(i < Cardinality(clientsIter))", "the search for a stable request starts above the minimum clock"),
+		r("AReplica", "findMinClient", "stable-means-below-every-clock", "chooseMessage := (timestamp__new < lowestPending) \\/ ((timestamp__new = lowestPending) /\\ (client < nextClient))", "i < Cardinality(pendingClients) /\\ timestamp__new < minClock",
+			"a request is a candidate only if its timestamp is below every live client's clock; ties are broken by client id"),
+		r("AReplica", "findMinClient", "picks-the-chosen-client", "nextClient := client", "i < Cardinality(pendingClients) /\\ timestamp__new < minClock /\\ chooseMessage__new", "the chosen request's client is remembered"),
+		r("AReplica", "addStableMessage", "moves-stable-request", "stableMessages := Append(stableMessages, msg__new)", "lowestPending < minClock", "a request is declared stable exactly when its timestamp is below the minimum clock"),
+		r("AReplica", "addStableMessage", "stops-when-nothing-is-stable", "continue := FALSE", "~(lowestPending < minClock)", "the search ends when no pending request is stable"),
+		r("AReplica", "addStableMessage", "pops-the-stable-request", "pendingRequests[nextClient] := Tail(pendingRequests[nextClient])", "lowestPending < minClock", "the stable request leaves its client's queue"),
+		r("AReplica", "respondStablePut", "put-writes-store", "kv[key__new] := val__new", "msg.op = PUT_MSG", "a stable Put is applied to the store"),
+		r("AReplica", "respondStablePut", "put-is-acknowledged-to-its-sender", "clients[msg.reply_to] := [type |-> PUT_RESPONSE, result |-> ok]", "msg.op = PUT_MSG", "the Put is acknowledged to the process that sent it"),
+		r("AReplica", "respondStableGet", "get-reads-store", "val := kv[key__new]", "msg.op = GET_MSG", "a stable Get reads the store"),
+		r("AReplica", "respondStableGet", "get-is-answered-to-its-sender", "clients[msg.reply_to] := [type |-> GET_RESPONSE, result |-> val__new]", "msg.op = GET_MSG", "the value goes to the process that asked"),
+		r("AReplica", "respondPendingRequestsLoop", "answers-in-stable-order", "msg := stableMessages[i]", "i <= Len(stableMessages)", "stable requests are answered in the order they were declared stable"),
+		r("Get", "getRequest", "tick-before-request", "clock[clientId] := clock[clientId] + 1", "~(clock[clientId] = -1)", "every request ticks the client's clock, unless the client has disconnected"),
+		r("Get", "getRequest", "request-carries-clock-and-sender", "getReq := [op |-> GET_MSG, key |-> key, client |-> clientId, timestamp |-> clock__new[clientId], reply_to |-> self]", "~(clock[clientId] = -1)", "the request carries the ticked clock and the process to answer"),
+		r("Put", "putRequest", "tick-before-request", "clock[clientId] := clock[clientId] + 1", "~(clock[clientId] = -1)", "every request ticks the client's clock, unless the client has disconnected"),
+		r("Put", "putRequest", "request-carries-clock-and-sender", "putReq := [op |-> PUT_MSG, key |-> key, value |-> value, client |-> clientId, timestamp |-> clock__new[clientId], reply_to |-> self]", "~(clock[clientId] = -1)", "the request carries the ticked clock and the process to answer"),
+		r("Put", "putResponse", "waits-for-every-replica", "goto putComplete", "~(i < Cardinality(ReplicaSet))", "a Put completes when every replica acknowledged"),
+		r("Disconnect", "sendDisconnectRequest", "disconnect-marks-clock", "clock[clientId] := -1", "", "a disconnected client's clock is -1 from then on"),
 	)
 }
